@@ -245,6 +245,14 @@ def directed():
             c = mk_case([3, 0, 2, 1], dtype, [100, 100, 3, 5, 7, 120] if dtype != "int64" else [100, 100, 3, -5, 7, 120], op, 1, "small")
             c["accdtype"] = ad
             yield c
+    # rectangular contents built from 2-D numpy arrays (C- and Fortran-ordered), written to before the operation
+    for recv in ("fromnumpy", "fromnumpy-F", "tonumpy-called"):
+        for lens in ([3, 3], [2, 2, 2], [4], [1, 1, 1]):
+            for op in OPS:
+                for how in ("cell", "row", "fill"):
+                    c = gen_case(rng, lens, "int64", "dups", op, recv)
+                    c["rewrite"] = {"how": how, "pos": 3, "val": 1}
+                    yield c
     for recv in c02.RECVS[1:]:
         for op in OPS:
             yield gen_case(rng, [2, 0, 3, 1], "int64", "small", op, recv)
